@@ -5,6 +5,7 @@ from ..core.program import norm, own_nodes, own_statements
 from ..core.world import world
 from ..rules import generic as G
 from ..rules import tables as T
+from ..rules import extra as X
 
 EXPLANATION = (
     "Static analysis of add_measures / tie_notes / split_note / find_tuplets / fill_rests / sanitize_part and the duration "
@@ -150,6 +151,7 @@ def run(ctx):
     rule_reads(ctx)
     rule_provenance(ctx)
     rule_nopitch(ctx)
+    X.rule_divs_at_span_start(ctx)
     rule_duplicates(ctx)
     fs = [ctx.prog.functions[f"{S}:{n}"] for n in NORMALISERS if f"{S}:{n}" in ctx.prog.functions] + \
          [ctx.prog.func(f"{M}:{n}") for n in ("estimate_symbolic_duration", "symbolic_to_numeric_duration", "find_tie_split", "order_splits",
